@@ -1016,23 +1016,22 @@ class Emitter:
         return finish('0' if not R else R)
 
     def vtable_slots(s):
-        """slot index (relative to address point) -> set of function names, over all vtable globals in the module"""
+        """vtable global name -> {slot index (relative to the address point): function name}"""
         if hasattr(s, '_slots'): return s._slots
-        m = s.mod; slots = {}
+        m = s.mod; tabs = {}
         for nm, g in m.globals.items():
             if not nm.startswith('@_ZTV') or g[0] == 'alias' or g[1] is None: continue
             init = g[1]
             arrays = []
             if init[0] == 'cstruct': arrays = [ev for et, ev in init[1] if ev[0] == 'carray']
             elif init[0] == 'carray': arrays = [init]
+            def fn_of(v):
+                while v[0] == 'ccast': v = v[3]
+                if v[0] == 'g' and (v[1] in m.funcs or v[1] in m.decls): return v[1]
+                return None
+            slots = {}
             for arr in arrays:
                 els = [ev for et, ev in arr[1]]
-                # address point: first function entry after the RTTI pointer; RTTI pointer is the last
-                # non-function entry before the first function.  Itanium ABI: [vcall/vbase offsets..., offset-to-top, rtti, f0, f1...]
-                def fn_of(v):
-                    while v[0] == 'ccast': v = v[3]
-                    if v[0] == 'g' and (v[1] in m.funcs or v[1] in m.decls): return v[1]
-                    return None
                 ap = None
                 for i, v in enumerate(els):
                     vv = v
@@ -1043,8 +1042,48 @@ class Emitter:
                 for i in range(ap, len(els)):
                     f = fn_of(els[i])
                     if f: slots.setdefault(i - ap, set()).add(f)
-        s._slots = slots
-        return slots
+            tabs[nm] = slots
+        s._slots = tabs
+        return tabs
+
+    def derived_vtables(s, static_type):
+        """vtables of the classes derived from (or equal to) the class named by the IR struct type of 'this', using the
+        type_info globals of the module; None when the hierarchy cannot be established (template classes, missing RTTI)"""
+        m = s.mod
+        if not isinstance(static_type, TPtr) or not isinstance(static_type.to, TNamed): return None
+        nm = static_type.to.name.strip('%').strip('"')
+        mm = re.match(r'(?:class|struct)\.([A-Za-z_][A-Za-z0-9_]*(?:::[A-Za-z_][A-Za-z0-9_]*)*)(?:\.base)?(?:\.\d+)?$', nm)
+        if not mm: return None
+        parts = mm.group(1).split('::')
+        enc = ''.join('%d%s' % (len(p), p) for p in parts)
+        if parts[0] == 'std' and len(parts) == 2: suffix = 'St' + '%d%s' % (len(parts[1]), parts[1])
+        else: suffix = ('N' + enc + 'E') if len(parts) > 1 else enc
+        base = '@_ZTI' + suffix
+        if base not in m.globals: return None
+        def bases_of(ti):
+            g = m.globals.get(ti)
+            if not g or g[0] == 'alias' or g[1] is None or g[1][0] != 'cstruct': return []
+            out = []
+            def walk(v):
+                if not isinstance(v, tuple): return
+                if v and v[0] == 'g' and v[1].startswith('@_ZTI') and v[1] != ti: out.append(v[1]); return
+                for x in v:
+                    if isinstance(x, tuple): walk(x)
+                    elif isinstance(x, list):
+                        for y in x:
+                            if isinstance(y, tuple): walk(y)
+            for et, ev in g[1][1][2:]: walk(ev)
+            return out
+        derived = set()
+        for ti in [n for n in m.globals if n.startswith('@_ZTI')]:
+            seen = set(); st = [ti]
+            while st:
+                x = st.pop()
+                if x in seen: continue
+                seen.add(x)
+                if x == base: derived.add(ti); break
+                st.extend(bases_of(x))
+        return ['@_ZTV' + t[5:] for t in derived]
 
     def indirect_candidates(s, ins, rt):
         m = s.mod
@@ -1071,7 +1110,13 @@ class Emitter:
                     k = 0
             slot = k
         if slot is not None:
-            c = sorted(n for n in s.vtable_slots().get(slot, ()) if compatible(n))
+            tabs = s.vtable_slots()
+            only = s.derived_vtables(ins.args[0][0]) if ins.args else None
+            names = set()
+            for vt, slots in tabs.items():
+                if only is not None and vt not in only: continue
+                names |= slots.get(slot, set())
+            c = sorted(n for n in names if compatible(n))
             c = [n for n in c if n[1:] not in ('__cxa_pure_virtual',)]
             return c
         if not hasattr(s, 'taken'):
@@ -1142,7 +1187,7 @@ def main():
     ap = argparse.ArgumentParser()
     ap.add_argument('out'); ap.add_argument('files', nargs='+')
     ap.add_argument('--roots', default=''); ap.add_argument('--stub', default=''); ap.add_argument('--stubfile')
-    ap.add_argument('--info')
+    ap.add_argument('--info'); ap.add_argument('--globals', default='')
     a = ap.parse_args()
     roots = [r for r in a.roots.split(',') if r]; stubs = set(x for x in a.stub.split(',') if x)
     if a.stubfile: stubs |= set(open(a.stubfile).read().split())
@@ -1154,6 +1199,9 @@ def main():
     for r in roots:
         if '@' + r not in mod.funcs and '@' + r not in mod.decls: raise SystemExit('ir2c: root not in module: ' + r)
         em.need_funcs['@' + r] = True
+    for g_ in [x for x in a.globals.split(',') if x]:
+        if '@' + g_ not in mod.globals: raise SystemExit('ir2c: global not in module: ' + g_)
+        em.need_globals['@' + g_] = True
     done = set(); bodies = []; protos = []
     gl_done = set(); gl_defs = []; gl_inits = []
     progress = True
